@@ -698,6 +698,113 @@ func scenarioFirstSerialiser(ser int, prov int) {
 	s.emit()
 }
 
+// scenarioCodec: the mutator-looking public API. A DataMessageCodec wrapping a message is asked to
+// UnmarshalBinary the frame of a DIFFERENT message (twice), a zero-value codec likewise; a
+// DataMessageBuilder is reused after Build. The originally wrapped message, the copies made before
+// and after, and every message a codec pointed at earlier must stay exactly what they were; the
+// frame passed to UnmarshalBinary and the slice returned by MarshalBinary are scribbled on.
+func scenarioCodec(variant int) {
+	s := &scen{what: fmt.Sprintf("msg/codec+builder/%d", variant%4)}
+	r := c.Rng
+	ncodec := 0
+	mkMsg := func() *hsms.DataMessage {
+		it, _ := mkTree(2)
+		fn := uint8(r.Intn(256))
+		m, err := hsms.NewDataMessage(uint8(r.Intn(128)), fn, fn%2 == 1 && r.Intn(2) == 0, uint16(r.Intn(65536)), randSys(), it)
+		if err != nil {
+			return nil
+		}
+		return m
+	}
+	var m *hsms.DataMessage
+	var o int
+	if variant%2 == 0 {
+		it, bufs := mkTree(2)
+		var names []string
+		for _, b := range bufs {
+			names = append(names, fmt.Sprint(s.newBuf(b)))
+		}
+		fn := uint8(r.Intn(128))*2 + 1
+		var err error
+		m, err = hsms.NewDataMessage(uint8(r.Intn(128)), fn, r.Intn(2) == 0, uint16(r.Intn(65536)), randSys(), it)
+		if err != nil {
+			return
+		}
+		o = s.addSubject(msgSubject{m}, "constructm:"+strings.Join(names, ","))
+	} else {
+		src := mkMsg()
+		if src == nil {
+			return
+		}
+		frame := src.ToBytes()
+		cv := s.newBuf(byteBuf(frame))
+		dm, err := hsms.DecodeHSMSMessage(frame)
+		if err != nil {
+			return
+		}
+		m, _ = dm.ToDataMessage()
+		o = s.addSubject(msgSubject{m}, fmt.Sprintf("decode:%d:T:14:0", cv))
+	}
+	s.addSubject(msgSubject{m.WithSystemBytes(randSys())}, fmt.Sprintf("share:%d", o))
+
+	// the codec: both ways of wrapping share the caller's pointer
+	var cd *hsms.DataMessageCodec
+	if variant%4 < 2 {
+		cd = m.Codec()
+	} else {
+		cd = &hsms.DataMessageCodec{Message: m}
+	}
+	s.ops = append(s.ops, fmt.Sprintf("codec:%d", o))
+	k := ncodec
+	ncodec++
+	mb, _ := cd.MarshalBinary()
+	s.ops = append(s.ops, fmt.Sprintf("get:%d:1", o))
+	s.ncv++
+	s.overwrite(s.ncv-1, byteBuf(mb))
+	s.observe("overwriting the slice MarshalBinary returned")
+
+	unmarshal := func(cdc *hsms.DataMessageCodec, slot int, after string) {
+		other := mkMsg()
+		if other == nil {
+			return
+		}
+		f := other.ToBytes()
+		fb := byteBuf(f)
+		fcv := s.newBuf(fb)
+		if err := cdc.UnmarshalBinary(f); err != nil {
+			c.Fail("UnmarshalBinary refused ToBytes of a constructed message", s.line())
+			return
+		}
+		s.addSubject(msgSubject{cdc.Message}, fmt.Sprintf("unmarshal:%d:%d:T:14:0", slot, fcv))
+		s.addSubject(msgSubject{m.WithSessionID(uint16(r.Intn(65536)))}, fmt.Sprintf("share:%d", o))
+		s.scribble(fcv, fb, 6)
+		s.observe(after)
+	}
+	unmarshal(cd, k, "UnmarshalBinary of a DIFFERENT message on the codec that wrapped this one (+ scribbling on that frame)")
+	unmarshal(cd, k, "a second UnmarshalBinary on the same codec")
+	// a zero-value codec
+	z := &hsms.DataMessageCodec{}
+	s.ops = append(s.ops, "codec:-")
+	zk := ncodec
+	ncodec++
+	unmarshal(z, zk, "UnmarshalBinary on a zero-value codec")
+	unmarshal(z, zk, "a second UnmarshalBinary on the formerly zero-value codec")
+
+	// the builder is a scratch record: reusing it after Build must not reach built messages
+	b := m.Derive()
+	if d1, err := b.Build(); err == nil {
+		s.addSubject(msgSubject{d1}, fmt.Sprintf("build:%d", o))
+		otherItem, _ := mkTree(1)
+		b.WithItem(otherItem).WithStream(uint8(r.Intn(128))).WithFunction(uint8(r.Intn(128)) * 2).WithWaitBit(false).
+			WithSessionID(uint16(r.Intn(65536))).WithSystemBytes(randSys()).WithID(r.Uint32())
+		if d2, err2 := b.Build(); err2 == nil {
+			s.addSubject(msgSubject{d2}, fmt.Sprintf("build:%d", o))
+		}
+		s.observe("re-using a DataMessageBuilder (With...) after Build")
+	}
+	s.emit()
+}
+
 func scenarioDecodedMessage(mode int) {
 	names := []string{"msg/DecodeHSMSMessage", "msg/DecodeHSMSPayload", "msg/UnmarshalBinary", "msg/DecodeOwnedHSMSPayload(positive control)"}
 	s := &scen{what: names[mode], owned: mode == 3}
@@ -870,6 +977,24 @@ func concurrentReaders(rounds int) {
 				out[g].i0, out[g].i1 = itemSubject{di}.digest()
 			}(g)
 		}
+		// meanwhile one goroutine uses codecs wrapping the very messages the readers read:
+		// UnmarshalBinary of another frame must only re-point the codec
+		otherFrame := func() []byte {
+			oi, _ := mkTree(1)
+			om, _ := hsms.NewDataMessage(9, 9, false, 9, [4]byte{9, 9, 9, 9}, oi)
+			return om.ToBytes()
+		}()
+		done.Add(1)
+		go func() {
+			defer done.Done()
+			ddm, _ := dm.ToDataMessage()
+			ttm, _ := tm.ToDataMessage()
+			c1, c2 := ddm.Codec(), &hsms.DataMessageCodec{Message: ttm}
+			start.Wait()
+			_ = c1.UnmarshalBinary(otherFrame)
+			_ = c2.UnmarshalBinary(otherFrame)
+			_, _ = c1.MarshalBinary()
+		}()
 		start.Done()
 		done.Wait()
 		ids := make([]string, n)
@@ -905,6 +1030,10 @@ func main() {
 	c = vh.New()
 	if !*onlyConc {
 		n := c.N
+		c.Note("mutator-looking public API on items/messages (exported pointer-receiver methods of secs2/hsms that assign to the receiver, by grep of the non-test sources): (*DataMessageCodec).UnmarshalBinary [c.Message = dm] and the exported field DataMessageCodec.Message; (*DataMessageBuilder).WithStream/WithFunction/WithWaitBit/WithItem/WithSessionID/WithSystemBytes/WithID. No Reset/Set*/Scan/Decode*Into exists; no exported method of any *Item, *DataMessage or *ControlMessage assigns to its receiver. All of them are operations of the sequence differential (codec:/unmarshal:/build:) and of the model layer Alias/Codec.v (C12_codec_noninterference).")
+		for v := 0; v < 8; v++ {
+			scenarioCodec(v)
+		}
 		// corpus first: every serialiser as the first observation of every constructed provenance
 		for rep := 0; rep < 3; rep++ {
 			for prov := 0; prov < 3; prov++ {
@@ -930,7 +1059,11 @@ func main() {
 			case 7:
 				scenarioDecodedMessage(c.Rng.Intn(3))
 			case 8:
-				scenarioDecodedMessage(3)
+				if i%20 == 8 {
+					scenarioCodec(c.Rng.Intn(4))
+				} else {
+					scenarioDecodedMessage(3)
+				}
 			default:
 				scenarioControl()
 			}
